@@ -58,7 +58,7 @@ func init() {
 		Require: func(string) map[string]int64 {
 			return map[string]int64{
 				"accept": 2000, "reject": 10000, "reject:x>=p": 100, "reject:off-curve": 500, "reject:alias-x+p": 10, "reject:alias-y+p": 5,
-				"accept:identity": 3, "accept:compressed": 500, "accept:uncompressed": 500, "wrong-form": 500, "hex:uppercase": 20, "hex:invalid": 20, "seq": 300, "seq-steps": 2000, "seq:repeat-after-mutation": 300, "class:near-miss": 100, "class:steered-y2": 100, "class:steered-x3": 100,
+				"accept:identity": 3, "accept:compressed": 500, "accept:uncompressed": 500, "wrong-form": 500, "hex:uppercase": 20, "hex:invalid": 20, "seq": 300, "seq-steps": 2000, "seq:repeat-after-mutation": 300, "class:near-miss": 100, "class:steered-y2": 100, "class:steered-x3": 100, "class:other-curve": 1000, "class:receiver-internals": 150, "class:text-form": 80,
 			}
 		},
 	})
@@ -66,16 +66,24 @@ func init() {
 	Registry["C03"].ColdStart = func(c *mon.Ctx) { c03RunConc(c, c.Seed*7919+uint64(c.Shard)+1) }
 }
 
+const c03PreKinds = 5
+
 func c03Pre(i int) (*secp256k1.Element, oracle.Pt) {
-	switch i % 3 {
+	switch i % c03PreKinds {
 	case 0:
 		p := oracle.Mul(big.NewInt(5), oracle.G())
 		return mon.Elem(p, gen.Repr{Kind: "scaled", L: big.NewInt(0xabcdef)}), p
 	case 1:
 		return mon.Elem(oracle.Inf(), gen.Repr{Kind: "id-y", L: big.NewInt(77)}), oracle.Inf()
-	default:
+	case 2:
 		p := oracle.Neg(oracle.Dbl(oracle.G()))
 		return mon.Elem(p, gen.Repr{Kind: "affine", L: big.NewInt(1)}), p
+	case 3:
+		// projective coordinates exactly as the library's own doubling leaves them
+		return secp256k1.Base().Double(), oracle.Dbl(oracle.G())
+	default:
+		// ... and its own addition
+		return secp256k1.Base().Add(secp256k1.Base().Double()), oracle.Mul(big.NewInt(3), oracle.G())
 	}
 }
 
@@ -208,6 +216,64 @@ func c03Generate(c *mon.Ctx) {
 			h := oracle.EncU(p)
 			h[0] = hp
 			emitBytes(h, "hybrid")
+		}
+	}
+
+	// 5b. inputs that are correlated with what the receiver currently holds INTERNALLY: its raw projective X, Y, Z taken as
+	// affine coordinates (a decoder that consults the receiver before overwriting it sees a "match" here)
+	for k := 0; k < c03PreKinds; k++ {
+		e, _ := c03Pre(k)
+		xl, yl, zl := secp256k1.VRaw(e)
+		X, Y, Z := oracle.FromMont(xl, oracle.P), oracle.FromMont(yl, oracle.P), oracle.FromMont(zl, oracle.P)
+
+		for _, in := range [][]byte{
+			append([]byte{2}, oracle.Bytes32(X)...), append([]byte{3}, oracle.Bytes32(X)...), append([]byte{2}, oracle.Bytes32(Y)...), append([]byte{3}, oracle.Bytes32(Z)...),
+			append(append([]byte{4}, oracle.Bytes32(X)...), oracle.Bytes32(Y)...), append(append([]byte{4}, oracle.Bytes32(Y)...), oracle.Bytes32(X)...),
+			append(append([]byte{4}, oracle.Bytes32(X)...), oracle.Bytes32(Z)...),
+		} {
+			for _, d := range c03ByteDecoders {
+				cs := &c03Case{Dec: d, In: mon.H(in), Pre: k, Class: "receiver-internals"}
+				c.Structured(func() any { return cs })
+			}
+		}
+
+		for _, xy := range [][2]*big.Int{{X, Y}, {Y, X}, {X, Z}, {X, X}} {
+			in := mon.H(append(oracle.Bytes32(xy[0]), oracle.Bytes32(xy[1])...))
+			c.Structured(func() any { return &c03Case{Dec: "DecodeCoordinates", In: in, Pre: k, Class: "receiver-internals"} })
+		}
+	}
+
+	// 5c. points of other curves: (x, y) with y^2 = x^3 + b for b != 7 (invalid-curve inputs), and with y^2 = c (x^3 + 7) for
+	// small c (for a non-residue c these are the points of the quadratic twist; c = -11 is the SSWU constant Z, the value the
+	// library's own square-root routine returns a root of when x^3+7 is not a square)
+	xs := []*big.Int{offX, big.NewInt(1), big.NewInt(2), big.NewInt(3), big.NewInt(5), g.X, pool.NonInf[3].P.X, pool.NonInf[11].P.X, oracle.FNeg(big.NewInt(2)), oracle.FSub(oracle.P, big.NewInt(40))}
+	for _, x := range xs {
+		gx := oracle.FAdd(oracle.FMul(oracle.FSqr(x), x), oracle.B7)
+
+		var rhs []*big.Int
+		for cc := int64(-30); cc <= 30; cc++ {
+			rhs = append(rhs, oracle.FMul(oracle.Mod(big.NewInt(cc), oracle.P), gx)) // other multiples of x^3+7 (cc = 1: valid)
+			rhs = append(rhs, oracle.FAdd(gx, oracle.Mod(big.NewInt(cc), oracle.P))) // other constants b = 7 + cc
+		}
+
+		for _, v := range rhs {
+			y, ok := oracle.FSqrt(v)
+			if !ok {
+				continue
+			}
+
+			for _, yy := range []*big.Int{y, oracle.FNeg(y)} {
+				emitBytes(append(append([]byte{4}, oracle.Bytes32(x)...), oracle.Bytes32(yy)...), "other-curve")
+				emitCoords(x, yy, "other-curve")
+			}
+		}
+	}
+
+	// 5d. the textual form of valid encodings handed to the byte decoders
+	for _, enc := range [][]byte{oracle.EncC(g), oracle.EncU(g), {0}, oracle.EncC(pool.NonInf[9].P)} {
+		h := mon.H(enc)
+		for _, txt := range []string{h, strings.ToUpper(h), "\"" + h + "\"", "0x" + h, h + "\n"} {
+			emitBytes([]byte(txt), "text-form")
 		}
 	}
 
@@ -594,7 +660,8 @@ func c03Run(c *mon.Ctx, csAny any) {
 
 	c.Eval(1)
 
-	if cs.Class == "near-miss" || cs.Class == "steered-y2" || cs.Class == "steered-x3" {
+	switch cs.Class {
+	case "near-miss", "steered-y2", "steered-x3", "other-curve", "receiver-internals", "text-form":
 		c.Count("class:" + cs.Class)
 	}
 
